@@ -121,6 +121,11 @@ def programs(tier: str):
                                 continue
                             if tier == "quick" and nchild == 2 and any(o > 1 for o in opts):
                                 continue
+                            if nchild == 2 and nrec == 3 and (
+                                any(o > 1 for o in opts)
+                                or not (shape == "chain" or placement == ("create", "create"))
+                            ):
+                                continue  # thorough: three records over two children only in the quick tier's shapes
                             if c0_end == "cancel" and not any(p in ("c0-late", "root-post") for p in pos):
                                 continue
                             yield {
